@@ -21,7 +21,7 @@ M = [
  ("C03-zerobin", ["C03"], "src/SM/RFKickMap.cpp", "const meshaxis_t xcenter = _in->getAxis(0)->zerobin();", "const meshaxis_t xcenter = (_xsize-1)/2.0f;"),
  ("C03-drift-halved", ["C03"], "src/SM/DriftMap.cpp", "_offset[y] /= _axis[0]->delta();", "_offset[y] /= 2*_axis[0]->delta();"),
  ("C04-diffusion-halved", ["C04"], "src/SM/FokkerPlanckMap.cpp", "const interpol_t e1_d2 = e1/(in->getDelta(1)*in->getDelta(1));", "const interpol_t e1_d2 = e1/(2*in->getDelta(1)*in->getDelta(1));"),
- ("C05-negated-wake", ["C05"], "src/SM/WakePotentialMap.cpp", "std::copy_n(_field->wakePotential(),PhaseSpace::nb*_xsize,_offset.data());", "std::transform(_field->wakePotential(),_field->wakePotential()+PhaseSpace::nb*_xsize,_offset.data(),[](meshaxis_t v){return -v;});"),
+ ("C08-negated-wake-copy", ["C08", "C10"], "src/SM/WakePotentialMap.cpp", "std::copy_n(_field->wakePotential(),PhaseSpace::nb*_xsize,_offset.data());", "std::transform(_field->wakePotential(),_field->wakePotential()+PhaseSpace::nb*_xsize,_offset.data(),[](meshaxis_t v){return -v;});"),
  ("C06-bucket-order", ["C06"], "src/PS/ElectricField.cpp", "* _wakepotential_padded[_bucket[b]*_spacing_bins+x];", "* _wakepotential_padded[_bucket[PhaseSpace::nb-1-b]*_spacing_bins+x];"),
  ("C06-frequency-shift", ["C06"], "src/PS/ElectricField.cpp", "_wakelosses[i]= (*_impedance)[i] *_formfactor[i];", "_wakelosses[i]= (*_impedance)[i+1] *_formfactor[i];"),
  ("C07-norm-abs", ["C07"], "src/PS/ElectricField.cpp", "* std::norm(_formfactor[i]);", "* std::abs(_formfactor[i]);"),
@@ -40,7 +40,6 @@ M = [
  ("C19-records-dropped", ["C19"], "src/SM/DynamicRFKickMap.cpp", "    _past_modulation.emplace_back(std::move(_next_modulation.front()));", "    if (_past_modulation.size()<3) _past_modulation.emplace_back(std::move(_next_modulation.front()));"),
  ("C19-pop-before-use", ["C19"], "src/SM/DynamicRFKickMap.cpp", "void vfps::DynamicRFKickMap::apply() {\n    _calcKick();", "void vfps::DynamicRFKickMap::apply() {\n    if (_next_modulation.size() > 1) { _past_modulation.emplace_back(_next_modulation.front()); _next_modulation.pop(); }\n    _calcKick();"),
  ("C15-stochastic-no-upper-clamp", ["C15"], "src/SM/FokkerPlanckMap.cpp", "                        , std::min(pos.y, static_cast<meshaxis_t>(_ysize-1)));\n        break;", "                        , pos.y);\n        break;"),
- ("C15-applyto-sign", ["C15"], "src/SM/KickMap.cpp", "            pos.y -= (1-xf)*_offset[xi]+xf*_offset[xi+1];", "            pos.y -= (1-xf)*_offset[xi]+xf*_offset[xi];"),
  ("C10-position-axis", ["C10"], "src/IO/HDF5File.cpp", "_positionAxis.dataset.write(ps->getAxis(0)->data(),_positionAxis.datatype);", "_positionAxis.dataset.write(ps->getAxis(1)->data(),_positionAxis.datatype);"),
  ("C10-time-axis", ["C10"], "src/main.cpp", "                hdf_file->append(*grid_t1,\n                        static_cast<double>(simulationstep)/steps, at);", "                hdf_file->append(*grid_t1,\n                        static_cast<double>(simulationstep+1)/steps, at);"),
  ("C11-default-record", ["C11"], "src/IO/ProgramOptions.cpp", "&_startdiststep)->default_value(-1),", "&_startdiststep)->default_value(0),"),
@@ -49,7 +48,7 @@ M = [
  ("C14-no-final-record", ["C14"], "src/main.cpp", "    // save final result\n    if (hdf_file != nullptr) {", "    // save final result\n    if (hdf_file != nullptr && !Display::abort) {"),
  ("C14-failure-status", ["C14"], "src/main.cpp", '        Display::printText("Aborted.");', '        Display::printText("Aborted.");\n        return EXIT_FAILURE;'),
  ("C20-no-compat", ["C20"], "src/IO/ProgramOptions.cpp", "    _cfgfileopts.add(_compatopts);\n", ""),
- ("C17-floor-spaced-bins", ["C17"], "src/main.cpp", "size_t spaced_bins = std::ceil(ps_bins*nbuckets*spacing_ps);", "size_t spaced_bins = std::floor(ps_bins*nbuckets*spacing_ps);"),
+ ("C17-no-room-for-last-bucket", ["C17"], "src/main.cpp", "    spaced_bins = std::max( spaced_bins\n                          , static_cast<size_t>(nbuckets-1)*spacing_bins+ps_bins);\n", ""),
 ]
 
 
